@@ -25,7 +25,7 @@ def modelStep (d : DState) (op : List String) (obs : List (List String)) : DStat
   match op with
   | ["run"] =>
     let ts := timestampOf obs
-    let fs := JUnit.files d.reg.package ts (runAll d.reg.filter d.reg.scripts)
+    let fs := JUnit.files d.reg.package ts (runRepeated d.reg.repeats d.reg.filter d.reg.scripts)
     (d, ("timestamp " ++ Proto.hex ts) :: fs.map fun f => "file " ++ Proto.hex f.name ++ " " ++ Proto.hex f.bytes)
   | ["skip"] => (d, [])
   | w =>
@@ -131,16 +131,26 @@ def checkFile (pkg : Text.Bytes) (flt : Option Filter) (g : Text.Bytes) (ts : Li
 def printedOfRun (flt : Option Filter) (ts : List Script) : Text.Bytes :=
   (ts.filter fun t => shouldRun flt t.info && t.info.willRun).flatMap fun t => printedBy t.acts
 
+/-- the groups are given with the text the runner itself printed just before them (the "Test run" line of a
+    repeated run; this output drops the numbers) -/
 def checkFiles (pkg : Text.Bytes) (flt : Option Filter) :
-    List (Text.Bytes × List Script) → Text.Bytes → List (Text.Bytes × Text.Bytes) → Option String
+    List (Text.Bytes × Text.Bytes × List Script) → Text.Bytes → List (Text.Bytes × Text.Bytes) → Option String
   | [], _, [] => none
   | [], _, (n, _) :: _ => some s!"file {showB n} written although no group is left"
-  | (g, _) :: _, _, [] => some s!"no file written for group {showB g}"
-  | (g, ts) :: more, printed, (n, b) :: files =>
+  | (_, g, _) :: _, _, [] => some s!"no file written for group {showB g}"
+  | (pre, g, ts) :: more, printed, (n, b) :: files =>
     let own := printedOfRun flt ts
-    match checkFile pkg flt g ts (printed ++ own) own n b with
+    match checkFile pkg flt g ts (printed ++ pre ++ own) own n b with
     | some e => some e
-    | none => checkFiles pkg flt more (printed ++ own) files
+    | none => checkFiles pkg flt more (printed ++ pre ++ own) files
+
+/-- the groups of `n` consecutive runs; the first group of each run carries the runner's line -/
+def repeatedGroups (n : Nat) (scripts : List Script) : List (Text.Bytes × Text.Bytes × List Script) :=
+  let runText : Text.Bytes := if n > 1 then lit "Test run  of \n" else []
+  (List.range n).flatMap fun _ =>
+    match groupRuns scripts with
+    | [] => []
+    | (g, ts) :: more => (runText, g, ts) :: more.map fun (g, ts) => ([], g, ts)
 
 def specRun (reg : Reg) (obs : List (List String)) : Option String :=
   if obs.any (fun l => l.head? == some "unclosed" || l.head? == some "double-close" || l.head? == some "write-after-close") then
@@ -151,7 +161,7 @@ def specRun (reg : Reg) (obs : List (List String)) : Option String :=
         | some n, some b => some (n, b)
         | _, _ => none
       | _ => none
-    checkFiles reg.package reg.filter (groupRuns reg.scripts) [] files
+    checkFiles reg.package reg.filter (repeatedGroups reg.repeats reg.scripts) [] files
 
 def specAll (ops : List Proto.Op) : Option String :=
   let rec go (reg : Reg) (i : Nat) : List Proto.Op → Option String
